@@ -13,16 +13,20 @@ EXTENDS Naturals, Sequences, FiniteSets, TLC, Json
 
 CONSTANTS Enforce, Deviations, MaxHist
 
-VARIABLES alive, hist, lastValid, bad
-vars == <<alive, hist, lastValid, bad>>
+VARIABLES alive,      \* the process exists
+          serving,    \* its accept loop still hands connections to a handshake
+          hist, lastValid, bad
+vars == <<alive, serving, hist, lastValid, bad>>
 Chk(label, F) == IF F THEN {} ELSE {label}
 Labels == {"C16_Selected", "C16_San", "C16_AcmeId", "C16_SelfSignedValid", "C16_RefuseForeign", "C17_Alive", "C17_NextValidServed"}
 
 Acme == "acme-tls/1"
 Behaviours == {"connect_close", "connect_reset", "garbage", "plain_http", "tls_no_alpn", "tls_foreign_alpn", "abandon_after_hello", "stalled_50",
-               "fd_exhaustion"}     \* more idle connections at once than the daemon has descriptors: accept() itself fails for a while
+               "fd_exhaustion",     \* more idle connections at once than the daemon has descriptors: accept() itself fails for a while
+               "slow_peer"}         \* a peer that sends its ClientHello a byte every few seconds for more than half a minute, then gives up
 (* which behaviours end in a failed handshake on the server side *)
-FailsHandshake(b) == b \in {"connect_close", "connect_reset", "garbage", "plain_http", "tls_foreign_alpn", "abandon_after_hello", "stalled_50", "fd_exhaustion"}
+FailsHandshake(b) == b \in {"connect_close", "connect_reset", "garbage", "plain_http", "tls_foreign_alpn", "abandon_after_hello", "stalled_50", "fd_exhaustion", "slow_peer"}
+TakesLong(b) == b = "slow_peer"
 FailsAccept(b) == b = "fd_exhaustion"
 
 SeqToSet(s) == {s[i] : i \in 1..Len(s)}
@@ -45,16 +49,18 @@ Hostile(b) ==
     /\ alive' = IF \/ FailsHandshake(b) /\ "HandshakeFailPanics" \in Deviations /\ "PanicAbort" \in Deviations
                    \/ FailsAccept(b) /\ "AcceptErrorEndsLoop" \in Deviations        \* `?' on the result of accept()
                 THEN FALSE ELSE alive
+    \* a time limit meant for one connection but measured from the start of the listener: once it has passed nobody is served
+    /\ serving' = IF TakesLong(b) /\ "DeadlineSetOnce" \in Deviations THEN FALSE ELSE serving
     /\ hist' = Append(hist, b) /\ bad' = {} /\ UNCHANGED lastValid
 
 (* a conforming validation attempt *)
 Valid ==
-    /\ lastValid' = alive
-    /\ bad' = Chk("C17_NextValidServed", alive) \cup Chk("C17_Alive", alive)
-    /\ hist' = Append(hist, "valid") /\ UNCHANGED alive
+    /\ lastValid' = (alive /\ serving)
+    /\ bad' = Chk("C17_NextValidServed", alive /\ serving) \cup Chk("C17_Alive", alive)
+    /\ hist' = Append(hist, "valid") /\ UNCHANGED <<alive, serving>>
 
 LastIs(x) == IF Len(hist) = 0 THEN FALSE ELSE hist[Len(hist)] = x
-Init == alive = TRUE /\ hist = <<>> /\ lastValid = FALSE /\ bad = {}
+Init == alive = TRUE /\ serving = TRUE /\ hist = <<>> /\ lastValid = FALSE /\ bad = {}
 Next == \/ (Len(hist) < MaxHist /\ \E b \in Behaviours : Hostile(b))
         \/ (Len(hist) <= MaxHist /\ LastIs("valid") = FALSE /\ Valid)
 Spec == Init /\ [][Next]_vars
@@ -83,7 +89,7 @@ ModelRes(offer) ==
 AlpnNext == /\ hist = <<>>
             /\ \E n \in 0..3 : \E o \in [1..n -> Protos] :
                  /\ bad' = JudgeTls(o, ModelRes(o), Want0) /\ hist' = <<o>>
-            /\ UNCHANGED <<alive, lastValid>>
+            /\ UNCHANGED <<alive, serving, lastValid>>
 AlpnSpec == Init /\ [][AlpnNext]_vars
 EmitOffer == (Len(hist) = 1) => PrintT(<<"REPLAY", ToJson(hist[1])>>)
 =============================================================================
